@@ -84,8 +84,8 @@ def gen_history(rng, nsteps=None, two_apps=None, simple=None, cfg=None,
                 if muts is None:
                     muts, st, rows = g.gen_sequence(st, a, n, rows)
                 if muts:
-                    label = ('e%d' % (s + 1)) if shared_labels else \
-                        ('%s_e%d' % (a, s + 1))
+                    label = spec.evo_label(
+                        s, '' if shared_labels else a + '_')
                     evos.append({'label': label, 'mutations': muts})
             project['apps'][a]['steps'].append({'evos': evos})
         rows_by_version.append(copy.deepcopy(rows))
@@ -132,4 +132,10 @@ def features(muts):
     """Structural features (as in C03) of a list of mutations."""
     from evosim.props import c03
     f = c03.features({'muts': [m for m in muts if m['op'] != 'NewModel']})
+    gone = set()
+    for m in muts:
+        if m['op'] == 'DeleteModel':
+            gone.add(m['model'])
+        elif m['op'] == 'NewModel' and m['model']['name'] in gone:
+            f['model_recreated'] = True
     return f
